@@ -108,6 +108,7 @@ fn main() {
     #[cfg(all(feature = "default-rng", not(miri)))]
     warm_up();
     println!("fipsim mode={} tier={} seed={} flavour={} workers={}", mode, ctx.tier.name(), ctx.seed, ctx.flavour, ctx.workers);
+    start_watchdog(&mode, &ctx);
     let code = match mode.as_str() {
         "c12" => c12::run(&ctx),
         "c05" => c05::run(&ctx),
@@ -141,12 +142,72 @@ fn warm_up() {
     }
 }
 
+/// Per-operation deadline in seconds (honest operations take milliseconds; the slowest, a 64 MiB message, under 2 s).
+const OP_DEADLINE_S: u64 = 120;
+
+/// Bounded liveness. (1) An operation published through `common::watch` that does not return within the
+/// deadline: while C13 is judged that is a violation of "every call returns a value or an error" and is
+/// reported as such, the history up to the stuck operation being the replay file; otherwise harness trouble
+/// (exit 2). (2) The whole run must end within a generous budget, so that a broken tree can make a check fail
+/// but cannot hang it.
+fn start_watchdog(mode: &str, ctx: &Ctx) {
+    let mode = mode.to_string();
+    let replay_dir = ctx.replay_dir.clone();
+    let (seed, flavour) = (ctx.seed, ctx.flavour.clone());
+    let budget_s: u64 = match ctx.tier {
+        Tier::Quick => 45 * 60,
+        Tier::Thorough => 6 * 3600,
+    };
+    let start = Instant::now();
+    std::thread::spawn(move || loop {
+        std::thread::sleep(std::time::Duration::from_secs(2));
+        if let Some((what, body, at_op, age)) = watch::overdue(OP_DEADLINE_S) {
+            if watch::judging_returns() && !body.is_empty() {
+                let observed = format!("{what} has not returned after {age} s");
+                if let Some(file) = watch::REPLAY_FILE.lock().unwrap().clone() {
+                    println!("VIOLATION property=C13 replay={file}");
+                    println!("  invariant=does-not-return observed={observed:?}");
+                    std::process::exit(1);
+                }
+                let _ = std::fs::create_dir_all(&replay_dir);
+                let path = replay_dir.join(format!("C13-{flavour}-{seed}-stuck.json"));
+                let mut v: serde_json::Value = serde_json::from_str(&body).unwrap_or(serde_json::Value::Null);
+                if let Some(ops) = v["ops"].as_array_mut() {
+                    ops.truncate(at_op + 1);
+                }
+                v["property"] = serde_json::json!("C13");
+                v["invariant"] = serde_json::json!("does-not-return");
+                v["finding_key"] = serde_json::json!("does-not-return");
+                v["flavour"] = serde_json::json!(flavour);
+                v["seed"] = serde_json::json!(seed);
+                v["at_op"] = serde_json::json!(at_op);
+                v["observed"] = serde_json::json!(observed);
+                v["expected"] = serde_json::json!("every call returns a value or an error (honest operations take milliseconds)");
+                let _ = std::fs::write(&path, serde_json::to_string_pretty(&v).unwrap_or_default());
+                println!("VIOLATION property=C13 replay={}", path.display());
+                println!("  invariant=does-not-return observed={observed:?}");
+                std::process::exit(1);
+            }
+            eprintln!("HARNESS-ERROR: {what} has not returned after {age} s (mode {mode}): a library call hangs on this tree");
+            std::process::exit(EXIT_HARNESS);
+        }
+        if start.elapsed().as_secs() > budget_s {
+            eprintln!("HARNESS-ERROR: mode {mode} exceeded its time budget of {budget_s} s");
+            std::process::exit(EXIT_HARNESS);
+        }
+    });
+}
+
 fn replay(ctx: &Ctx, file: &str) -> i32 {
     let txt = std::fs::read_to_string(file).unwrap_or_else(|e| harness_error(&format!("cannot read {file}: {e}")));
     let body: serde_json::Value = serde_json::from_str(&txt).unwrap_or_else(|e| harness_error(&format!("replay file does not parse: {e}")));
     let prop = body["property"].as_str().unwrap_or("");
     let want = body["invariant"].as_str().unwrap_or("");
     let _ = ctx;
+    if prop == "C13" {
+        watch::set_judging_returns(true);
+        *watch::REPLAY_FILE.lock().unwrap() = Some(file.to_string());
+    }
     let got = match prop {
         "C12" => c12::replay_body(&body),
         "C05" => c05::replay_body(&body),
